@@ -2027,9 +2027,9 @@ class IMAPClientCommand:
         # We must match the case insensitive string 'mailbox' first because
         # our other mailbox names are case sensitive.
         #
-        mbox_name = self._p_simple_string("inbox", silent=True)
-        if mbox_name is None:
-            mbox_name = self._p_astring()
+        mbox_name = self._p_astring()
+        if mbox_name.lower() == "inbox":
+            mbox_name = "inbox"
         if mbox_name != "":
             name = os.path.normpath(mbox_name)
             # One leading "/" is tolerated (and ignored by the user server).
